@@ -36,7 +36,7 @@ while size > 1 { let half = size / 2; let mid = base + half;
                  base = if f(self[mid]) == Greater { base } else { mid }; size -= half; }
 ```
 `fuel` is instantiated with `size`; `none` = fuel exhausted or read outside the slice (both proved
-unreachable in `SurfProofs.Lemmas.Color256.bsLoop_some`). -/
+unreachable: `SurfProofs.Lemmas.Color256.bsLoop_spec`, `SurfProofs.C20.C20_search_contract`). -/
 def bsLoop (vs : List α) (v : α) : (fuel base size : Nat) → Option Nat
   | 0, _, _ => none
   | fuel + 1, base, size =>
